@@ -95,6 +95,7 @@ RenderElem(doc, i, ctx, cfg, budget) ==
            cu == Then(Translate(Len0(tok[5][2], ctx[2], RZero), Len0(tok[5][3], ctx[3], RZero)), ctm0)
        IN <<i + 1, IF k = 0 \/ budget = 0 THEN <<>>
                    ELSE RenderElem(doc, k, <<cu, ctx[2], ctx[3], hidden, pp[1]>>, cfg, budget - 1)[2]>>
+  ELSE IF tag \notin ShapeTags THEN <<i + 1, <<>>>>      \* image, text, ...: a leaf that contributes no shape
   ELSE \* a shape
        LET segs == ShapeSegs(tok, ctx[2], ctx[3]) IN
        <<i + 1, IF hidden \/ segs = <<>> THEN <<>>
